@@ -1,3 +1,109 @@
-import Chiritori.Spec.Holds
+import Chiritori.Lemmas.FormatBlock
+/-
+  C12 — Unwrap-block dedents the surviving body uniformly and safely.
+
+  What is proved is the shape of every range the block indent remover returns (for every text, every pair of
+  seam positions):
+  * `blockLoop_shape`: each range belongs to one line that starts at `ls` (the position handed in, or the
+    position behind a line break) and whose first non-blank byte is at `ip`; with tag column `t` and shift `s`
+    it is `[min(ls+t, ip), min(min(ls+t, ip) + s, ip))`;
+  * `lineRange_arith` / `dedent_formula`: with `w = ip - ls` the indentation of that line, the range starts at
+    column `min(t, w)`, removes `min(s, w - min(t, w))` bytes, so the new indentation is `w` when `w ≤ t` and
+    `max(w - s, t)` otherwise: every line is shifted by the same `s`, never left of the tag column, lines at or
+    left of the tag column are untouched;
+  * `fmtBlockIndent_shape`: `t` is the column of the head seam (bytes between the preceding line break and the
+    seam, 0 if anything but blanks precedes it) and `s` the indentation of the first block line minus `t`,
+    truncated at 0; only blanks are consumed (`fmtBlockIndent_ok`).
+  Not proved yet: that *every* surviving inner line of an unwrapped element gets its range (completeness of the
+  loop between the two seams) and the composition over nested blocks; the file-start region is the known
+  finding D11.
+-/
 namespace Chiritori.Props.C12
+open Chiritori
+
+/-- the dedent range of a line starting at `ls` whose first non-blank byte is at `ip` -/
+def lineRange (ls ip t s : Nat) : Nat × Nat := (min (ls + t) ip, min (min (ls + t) ip + s) ip)
+
+theorem lineRange_arith (ls ip t s : Nat) (h : ls ≤ ip) :
+    (lineRange ls ip t s).1 = ls + min t (ip - ls) ∧
+    (lineRange ls ip t s).2 - (lineRange ls ip t s).1 = min s (ip - ls - min t (ip - ls)) := by
+  unfold lineRange
+  constructor <;> simp only <;> omega
+
+/-- the indentation a line keeps: untouched at or left of the tag column, else shifted by `s` but not past it -/
+theorem dedent_formula (w t s : Nat) :
+    w - min s (w - min t w) = if w ≤ t then w else max (w - s) t := by
+  split <;> omega
+
+theorem blockLoop_shape (b : Bytes) (endPos t s fuel cur : Nat) :
+    ∀ r ∈ blockLoop b endPos t s fuel cur,
+      ∃ ls ip, cur ≤ ls ∧ (ls = cur ∨ (0 < ls ∧ b[ls - 1]? = some (.lead '\n'))) ∧
+        findNextChar b ls = some ip ∧ r = lineRange ls ip t s ∧ r.1 ≠ r.2 := by
+  induction fuel generalizing cur with
+  | zero => simp [blockLoop]
+  | succ fuel ih =>
+    intro r hr
+    simp only [blockLoop] at hr
+    split at hr
+    · cases hlb : findNextLB b cur false with
+      | none => rw [hlb] at hr; simp at hr
+      | some lb =>
+        rw [hlb] at hr
+        simp only at hr
+        obtain ⟨_, l1, _, l3, _, _⟩ := findNextLB_some _ cur lb false hlb
+        split at hr
+        · simp at hr
+        · rw [List.mem_append] at hr
+          rcases hr with hr | hr
+          · cases hip : findNextChar b cur with
+            | none => rw [hip] at hr; simp at hr
+            | some ip =>
+              rw [hip] at hr
+              simp only at hr
+              split at hr
+              · rename_i hne
+                simp only [List.mem_singleton] at hr
+                subst hr
+                exact ⟨cur, ip, Nat.le_refl _, Or.inl rfl, hip, rfl, hne⟩
+              · simp at hr
+          · obtain ⟨ls, ip, h1, h2, h3, h4, h5⟩ := ih (lb + 1) r hr
+            refine ⟨ls, ip, by omega, ?_, h3, h4, h5⟩
+            rcases h2 with h2 | h2
+            · right; subst h2; exact ⟨by omega, by simpa using l3⟩
+            · right; exact h2
+    · simp at hr
+
+/-- column of the head seam and shift, as the code computes them -/
+def tagColumn (b : Bytes) (startPos : Nat) : Nat :=
+  match findPrevLB b startPos true with
+  | some p => startPos - p - 1
+  | none => 0
+
+def firstLine (b : Bytes) (startPos : Nat) : Option Nat :=
+  ((b.drop startPos).findIdx? (fun x => x == .lead '\n')).map fun ofs => startPos + ofs + 1
+
+theorem fmtBlockIndent_shape (b : Bytes) (startPos endPos : Nat) :
+    ∀ r ∈ fmtBlockIndent b startPos endPos,
+      ∃ cur ls ip, firstLine b startPos = some cur ∧ cur ≤ ls ∧
+        (ls = cur ∨ (0 < ls ∧ b[ls - 1]? = some (.lead '\n'))) ∧ findNextChar b ls = some ip ∧
+        r = lineRange ls ip (tagColumn b startPos) (getIndentLen b cur - tagColumn b startPos) ∧ r.1 ≠ r.2 := by
+  intro r hr
+  unfold fmtBlockIndent at hr
+  dsimp only at hr
+  cases hf : (b.drop startPos).findIdx? (fun x => x == .lead '\n') with
+  | none => rw [hf] at hr; simp at hr
+  | some ofs =>
+    rw [hf] at hr
+    simp only at hr
+    obtain ⟨ls, ip, h1, h2, h3, h4, h5⟩ := blockLoop_shape b endPos _ _ _ _ r hr
+    exact ⟨startPos + ofs + 1, ls, ip, by simp [firstLine, hf], h1, h2, h3, h4, h5⟩
+
+/-- only blanks are consumed, at character boundaries -/
+theorem only_blanks (s : List Char) (startPos endPos : Nat) :
+    ∀ r ∈ fmtBlockIndent (bytesOf s) startPos endPos, RangeOK s r := fmtBlockIndent_ok s startPos endPos
+
+/-! Kernel-evaluated instance: the doc-test of block_indent_remover.rs and a line left of the tag column. -/
+example : fmtBlockIndent (bytesOf "foo\n\n  fuga\n  piyo\n\nbar".toList) 4 19 = [(5, 7), (12, 14)] := by decide +kernel
+example : fmtBlockIndent (bytesOf "x\n  \n      a\n b\n    c\n  \nz".toList) 4 22 = [(7, 11), (18, 20)] := by decide +kernel
+
 end Chiritori.Props.C12
